@@ -43,10 +43,10 @@ func h05Schemas() [][]string {
 			`module e2 { namespace "urn:e2"; prefix e2; typedef u1 { type e2:u2; } typedef u2 { type u1; } }`,
 			`module e3 { namespace "urn:e3"; prefix e3; leaf a { type int8 { range "9..1"; } } leaf b { type bogus; } uses nosuch; }`,
 			`module e4 { namespace "urn:e4"; prefix e4; identity i { base nosuch; } }`},
-		// two augmenting modules adding the same name: which one is reported must not depend on order
+		// two augmenting modules adding the same two names (two collisions in one merge): what is reported must not depend on order
 		{`module m { namespace "urn:m"; prefix m; container c { leaf k { type string; } } }`,
-			`module a { namespace "urn:a"; prefix a; import m { prefix m; } augment /m:c { leaf x { type string; } } }`,
-			`module b { namespace "urn:b"; prefix b; import m { prefix m; } augment /m:c { leaf x { type int8; } } }`,
+			`module a { namespace "urn:a"; prefix a; import m { prefix m; } augment /m:c { leaf x { type string; } leaf y { type string; } } }`,
+			`module b { namespace "urn:b"; prefix b; import m { prefix m; } augment /m:c { leaf x { type int8; } leaf y { type int8; } leaf z { type int8; } } }`,
 			`module z { namespace "urn:z"; prefix z; }`},
 		// typedef cycles that close through union members; a chain of imports with two missing modules
 		{`module ta { namespace "urn:ta"; prefix ta; typedef A { type union { type B; type string; } } typedef B { type union { type A; type int8; } } }`,
